@@ -414,6 +414,29 @@ def uni_sources():
     return out
 
 
+# ---------------------------------------------------------------- undecodable files
+
+# Files that are not valid UTF-8: each of 7 invalid byte sequences (lone 0xEF / 0xFF / 0x80,
+# truncated 3- and 4-byte sequences, a latin-1 byte, a bad continuation) spliced into a string, a
+# comment or an identifier, before or after a body that needs / does not need reformatting.
+# They cannot be decoded, let alone tokenised: every CLI mode must leave the bytes alone and
+# report an error.
+BAD_BYTES = [b"\xef", b"\xff", b"\x80", b"\xe2\x82", b"\xf0\x9f\x99", b"\xe9", b"\xc3\x28"]
+BAD_PLACES = [b"s = 'a%sb'\n", b"# a%sb\n", b"a%sb = 1\n", b"echo a%sb\n"]
+BAD_BODIES = [b"x=1\n", b"x = 1\n", b"if a:\n\tb=1   \n"]
+
+
+def badbyte_sources():
+    out = []
+    for body in BAD_BODIES:
+        for place in BAD_PLACES:
+            for bad in BAD_BYTES:
+                line = place.replace(b"%s", bad)
+                out.append(line + body)
+                out.append(body + line)
+    return out
+
+
 # ---------------------------------------------------------------- indentation family
 
 # Every sequence of line indentations of 3..5 lines over the columns 0 2 4 8 and a tab: the space
